@@ -12,5 +12,5 @@ open(p,'w').write(s.replace(old,new,1))
 PY
 [ $? -eq 0 ] || { rm -rf "$D"; exit 3; }
 (cd "$D" && GOFLAGS=-mod=mod GOPROXY=off go build ./... 2>&1 | head -5)
-GOVC_TRUSTED_DIR=/verif/trusted /verif/bin/govc check "$PROP" --repo "$D" --verif /tmp/mutout 2>&1 | grep -E "FAILED|REGRESSED|VIOLATION|UNDECIDED|^property" | cut -c1-250
+GOVC_TRUSTED_DIR=/verif/trusted GOVC_BASELINE_DIR=/verif/baseline GOVC_KNOWN_FINDINGS=/verif/known_findings.jsonl /verif/bin/govc check "$PROP" --repo "$D" --verif /tmp/mutout 2>&1 | grep -E "FAILED|REGRESSED|VIOLATION|UNDECIDED|^property" | cut -c1-250
 rm -rf "$D" /tmp/mutout
